@@ -143,7 +143,64 @@ def solve(d, rw):
         return None
 
 
+E_SPELLINGS = ['E-of-sum', 'sum-of-E', 'matmul-E', 'E-matmul', 'E-rmatmul', 'loop', 'neg-both-sides']
+
+
+def dro_expectation_spellings(ctx, seed):
+    """array expressions versus element-wise loops for expectation terms of a dro model: every spelling of
+    sum_i w_i E[y_i] <= x (y affinely adaptive, so that an expectation differs from a worst case) gives the same optimum"""
+    import rsome as rso
+    from rsome import dro, E
+    r = np.random.default_rng(seed)
+    k = int(r.integers(2, 4)); S = int(r.integers(1, 3))
+    w = r.choice([0.5, 1.0, 2.0, -1.0], k); g = r.choice([1.0, 2.0, -1.0], k)
+    mean = r.choice([0.25, 0.5, 1.0], k); hi = mean + r.choice([1.0, 2.0], k)
+
+    def build(sp):
+        m = dro.Model(S); x = m.dvar(); y = m.dvar(k); z = m.rvar(k)
+        y.adapt(z)
+        fs = m.ambiguity(); fs.suppset(z >= 0, z <= hi); fs.exptset(E(z) == mean)
+        m.minsup(E(x), fs)
+        m.st(y >= g * z, y <= 20, x <= 100)
+        if sp == 'E-of-sum':
+            m.st(E((w * y).sum()) <= x)
+        elif sp == 'sum-of-E':
+            m.st((w * E(y)).sum() <= x)
+        elif sp == 'matmul-E':
+            m.st(w @ E(y) <= x)
+        elif sp == 'E-matmul':
+            m.st(E(w @ y) <= x)
+        elif sp == 'E-rmatmul':
+            m.st(E(y @ w) <= x)
+        elif sp == 'loop':
+            m.st(sum(float(w[i]) * E(y[i]) for i in range(k)) <= x)
+        else:
+            m.st(-x <= -E((w * y).sum()))
+        return m
+    vals = {}
+    for sp in E_SPELLINGS:
+        ctx.search_cases += 1; ctx.evaluations += 1
+        try:
+            with C.quiet():
+                m = build(sp)
+            vals[sp] = C.solve_model(m)
+        except C.SkipCase:
+            ctx.count('spelling:skipped'); continue
+        except RuntimeError:
+            vals[sp] = None
+        except Exception as ex:
+            ctx.hit('expectation-spelling-raises:' + sp + ':' + type(ex).__name__, {"error": str(ex)[:200]}, {"spelling_seed": seed, "spelling": sp}); continue
+    ref = vals.get('loop')
+    for sp, v in vals.items():
+        if (v is None) != (ref is None) or (v is not None and abs(v - ref) > 1e-5 * (1 + abs(ref))):
+            ctx.hit('expectation-spelling-changes-optimum:' + sp, {"element_wise_loop": ref, "this_spelling": v, "all": vals}, {"spelling_seed": seed, "spelling": sp})
+        else:
+            ctx.count('spelling:same:' + sp)
+
+
 def run(ctx):
+    for k in range(ctx.n(12, 150)):
+        dro_expectation_spellings(ctx, int(ctx.rng.integers(2 ** 31)))
     for k in range(ctx.n(40, 700)):
         seed = int(ctx.rng.integers(2 ** 31))
         r = np.random.default_rng(seed)
@@ -177,5 +234,9 @@ def run(ctx):
 
 def replay(rp):
     c = rp['case']
+    if 'spelling_seed' in c:
+        ctx = C.Ctx('C15', 'quick', 0)
+        dro_expectation_spellings(ctx, c['spelling_seed'])
+        return {"hits": [(h['key'], h['detail']) for h in ctx.hits], "fails": bool(ctx.hits)}
     b = solve(c['desc'], []); v = solve(c['desc'], c['rewrites'])
     return {"base": b, "rewritten": v, "fails": (b is None) != (v is None) or (b is not None and abs(b - v) > 1e-5 * (1 + abs(b)))}
